@@ -11,6 +11,10 @@
 //   copyx <dst> <src> <b> <e>   copyGrid(src, b, e) WITHOUT the range check of the harness (for the documented
 //                         "outputs_end outside of the range" behaviour)
 //   selfassign <s>        g = g  (operator= with the same object on both sides)
+//   make custom <s> <dims> <outs> <depth> <type> <file> [aw: i..] [ll: i..]
+//                         Global grid with rule_customtabulated, the table is read from <workdir>/<file> (same spelling as harness/iodrv.cpp)
+//   xdump <s> custom      white-box: the CustomTabulated table held by the Global grid in slot <s>:
+//                           o custlev n  num_levels num_nodes.. precision..   /  o custtab n  weights and nodes of every level  /  o custdesc n bytes
 //
 // tsgdrv.cpp is compiled into this file unchanged (its main() is renamed); the case loop below is the same
 // fork-per-case loop with a CPU alarm.
@@ -42,7 +46,8 @@ static bool run_extra(const std::string &line) {
     Tok k; { std::istringstream ss(line); std::string t; while (ss >> t) k.t.push_back(t); }
     if (k.t.empty()) return false;
     std::string cmd = k.t[0];
-    if (cmd != "xdump" && cmd != "copyx" && cmd != "selfassign") return false;
+    bool mkcustom = (cmd == "make" && k.t.size() > 1 && k.t[1] == "custom");
+    if (cmd != "xdump" && cmd != "copyx" && cmd != "selfassign" && !mkcustom) return false;
     k.next();
     printf("c %s\n", line.c_str()); fflush(stdout);
     try {
@@ -56,7 +61,17 @@ static bool run_extra(const std::string &line) {
                 else if (g.isGlobal()) pglobal(g.get<GridGlobal>()->dynamic_values.get(), d, outs);
                 else if (g.isFourier()) pglobal(g.get<GridFourier>()->dynamic_values.get(), d, outs);
                 else printf("o cstate 0\n");
+            } else if (what == "custom") {
+                std::vector<double> lev, tab, desc;
+                if (g.isGlobal()) { const CustomTabulated &c = g.get<GridGlobal>()->custom; lev.push_back((double) c.num_levels);
+                    for (int v : c.num_nodes) lev.push_back((double) v); for (int v : c.precision) lev.push_back((double) v);
+                    for (size_t l = 0; l < c.weights.size(); l++) { tab.insert(tab.end(), c.weights[l].begin(), c.weights[l].end()); if (l < c.nodes.size()) tab.insert(tab.end(), c.nodes[l].begin(), c.nodes[l].end()); }
+                    for (unsigned char ch : c.description) desc.push_back((double) ch); }
+                pd("custlev", lev); pd("custtab", tab); pd("custdesc", desc);
             } else throw std::runtime_error("driver: unknown xdump " + what);
+        } else if (mkcustom) {
+            k.next(); Slot &s = S(k.next()); int d = k.ni(), outs = k.ni(), depth = k.ni(); TypeDepth ty = DEPTHS.at(k.next()); std::string file = workdir + "/" + k.next(); auto m = k.keyed();
+            s.g.makeGlobalGrid(d, outs, depth, ty, rule_customtabulated, toInts(m["aw:"]), 0.0, 0.0, file.c_str(), toInts(m["ll:"])); s.cand.clear();
         } else if (cmd == "copyx") {
             Slot &dst = S(k.next()); Slot &src = S(k.next()); int b = k.ni(), e = k.ni(); dst.g.copyGrid(src.g, b, e); dst.cand = src.cand;
         } else if (cmd == "selfassign") {
